@@ -66,11 +66,11 @@ theorem readDef_wr (env : Env) (rc : Rec) (hrc : RecWR env rc) : RecWR env (read
     · cases h
     · rename_i tag bs1 ht
       obtain ⟨hlt, het⟩ := be_takeBE tagTy bs bs1 tag hb ht
-      cases hs : selectVariant env.utf8 pool tag variants 0 with
+      cases hs : selectVariant env.utf8 env.wide pool tag variants 0 with
       | ok x =>
         obtain ⟨i, var⟩ := x
         rw [hs] at h; simp only [Res.bind_ok] at h
-        obtain ⟨_, hv⟩ := selectVariant_idx env.utf8 pool tag variants 0 i var hs
+        obtain ⟨_, hv⟩ := selectVariant_idx env.utf8 env.wide pool tag variants 0 i var hs
         simp at hv
         obtain ⟨fs, a, w, rfl, ha, hw, he, n, hn, hnt⟩ :=
           readBody_wr env rc hrc id (some (var.tagWrite, tagTy, tag)) pool _ i var.body bs1 v r (hb.suffix het) h
@@ -112,6 +112,48 @@ theorem readN_le (rd1 rd2 : Bytes → Res (Val × Bytes)) (hle : ∀ bs x, rd1 b
     | panic => rw [h1] at h; cases h
     | fuel => rw [h1] at h; cases h
 
+theorem readSlots_le (wide : List Nat) (rd1 rd2 : Bytes → Res (Val × Bytes))
+    (hle : ∀ bs x, rd1 bs = .ok x → rd2 bs = .ok x) :
+    ∀ N n, n ≤ N → ∀ bs x, readSlots wide rd1 n bs = .ok x → readSlots wide rd2 n bs = .ok x := by
+  intro N
+  induction N with
+  | zero =>
+    intro n hn bs x h
+    have : n = 0 := by omega
+    subst this; simpa [readSlots] using h
+  | succ N ih =>
+    intro n hn bs x h
+    cases n with
+    | zero => simpa [readSlots] using h
+    | succ n =>
+      simp only [readSlots] at h ⊢
+      cases h1 : rd1 bs with
+      | ok y =>
+        obtain ⟨v, bs1⟩ := y
+        rw [h1] at h; rw [hle bs _ h1]
+        simp only [Res.bind_ok] at h ⊢
+        have step : ∀ m, m ≤ N →
+            ((readSlots wide rd1 m bs1).bind fun (vs, r) => Res.ok (v :: vs, r)) = .ok x →
+            ((readSlots wide rd2 m bs1).bind fun (vs, r) => Res.ok (v :: vs, r)) = .ok x := by
+          intro m hm hb
+          cases h2 : readSlots wide rd1 m bs1 with
+          | ok z => rw [h2] at hb; rw [ih m hm bs1 z h2]; exact hb
+          | err => rw [h2] at hb; cases hb
+          | panic => rw [h2] at hb; cases hb
+          | fuel => rw [h2] at hb; cases hb
+        cases hwd : isWide wide v with
+        | true =>
+          simp only [hwd, if_true] at h ⊢
+          cases n with
+          | zero => cases h
+          | succ m => exact step m (by omega) h
+        | false =>
+          simp only [hwd] at h ⊢
+          exact step n (by omega) (by simpa using h)
+      | err => rw [h1] at h; cases h
+      | panic => rw [h1] at h; cases h
+      | fuel => rw [h1] at h; cases h
+
 theorem readTy_le (rc1 rc2 : Rec) (hle : RecLe rc1 rc2) : ∀ ty pool binds bs x,
     readTy rc1 pool binds ty bs = .ok x → readTy rc2 pool binds ty bs = .ok x := by
   intro ty
@@ -140,6 +182,20 @@ theorem readTy_le (rc1 rc2 : Rec) (hle : RecLe rc1 rc2) : ∀ ty pool binds bs x
       | ok z =>
         rw [h2] at h
         rw [readN_le _ _ (fun bs x h => ih pool binds bs x h) n bs z h2]
+        exact h
+      | err => rw [h2] at h; cases h
+      | panic => rw [h2] at h; cases h
+      | fuel => rw [h2] at h; cases h
+    · cases h
+  | vecSlots e wd el ih =>
+    intro pool binds bs x h
+    simp only [readTy] at h ⊢
+    split at h
+    · rename_i n hn
+      cases h2 : readSlots wd (readTy rc1 pool binds el) n bs with
+      | ok z =>
+        rw [h2] at h
+        rw [readSlots_le wd _ _ (fun bs x h => ih pool binds bs x h) n n (Nat.le_refl _) bs z h2]
         exact h
       | err => rw [h2] at h; cases h
       | panic => rw [h2] at h; cases h
@@ -230,7 +286,7 @@ theorem readDef_le (s1 s2 : Bool) (hs : s2 = true → s1 = true) (env : Env) (rc
   · split at h
     · cases h
     · rename_i tag bs1 ht
-      cases hsel : selectVariant env.utf8 pool tag _ 0 with
+      cases hsel : selectVariant env.utf8 env.wide pool tag _ 0 with
       | ok y =>
         rw [hsel] at h; simp only [Res.bind_ok] at h ⊢
         exact readBody_le s1 s2 hs env rc1 rc2 hle _ _ _ _ _ _ _ x h
